@@ -986,6 +986,27 @@ func (e *Enc) builtin(fr *Frame, instr ssa.Instruction, c *ssa.CallCommon) Val {
 
 func (e *Enc) havocSliceStorage(fr *Frame, sv *SliceV) {
 	if sv.FromCell != nil {
+		// a window [off, off+len) of a local array with literal bounds: the elements outside the
+		// window keep their values
+		if off, ok := litValue(sv.Off); ok && off.IsInt64() {
+			if n, ok2 := litValue(sv.Len); ok2 && n.IsInt64() && sv.CellPath == "" {
+				if at, ok3 := under(sv.FromCell.Typ).(*types.Array); ok3 && at.Len() <= 64 && len(leavesOf(sv.Elem)) == 1 {
+					lf := leavesOf(sv.Elem)[0]
+					ck := fmt.Sprintf("c:%d%s", sv.FromCell.ID, lf.path)
+					if old, ok4 := fr.curState.m[ck]; ok4 {
+						nw := e.s.Const("copied", old.Sort)
+						for i := int64(0); i < at.Len(); i++ {
+							if i < off.Int64() || i >= off.Int64()+n.Int64() {
+								nw = Store(nw, IntLit(i), Select(old, IntLit(i)))
+							}
+						}
+						e.noteWrite(ck)
+						fr.curState.m[ck] = e.s.Define("st:"+ck, nw)
+						return
+					}
+				}
+			}
+		}
 		e.havocCell(fr.curState, sv.FromCell)
 		return
 	}
